@@ -223,9 +223,13 @@ class Evidence:
 
 # ---------------------------------------------------------------- driver-based stages
 
+EXTRA_ENV = {}      # per-property overrides (cfg["env"]), set by run_check/replay
+
+
 def child_env(variant):
     env = dict(os.environ)
     env.update(SAN_ENV)
+    env.update(EXTRA_ENV)
     env.pop("ORC_DEBUG", None)
     env.pop("ORC_CODE", None)
     return env
@@ -407,6 +411,7 @@ def run_check(prop, tier, scale):
     if prop not in registry.PROPS:
         raise SystemExit("unknown property " + prop)
     cfg = registry.PROPS[prop]
+    EXTRA_ENV.clear(); EXTRA_ENV.update(cfg.get("env", {}))
     ev = Evidence(prop, tier, cfg["level"])
     ev.rule = cfg["rule"]
     ev.assumptions = list(cfg.get("assumptions", []))
@@ -420,6 +425,7 @@ def run_check(prop, tier, scale):
 def replay(prop, casefile):
     import registry
     cfg = registry.PROPS[prop]
+    EXTRA_ENV.clear(); EXTRA_ENV.update(cfg.get("env", {}))
     if "custom_replay" in cfg:
         return cfg["custom_replay"](prop, casefile, cfg)
     exe = build_driver_binary(prop, cfg["variant"], cfg["sources"], cfg.get("cflags", ()), cfg.get("ldflags", ()))
